@@ -1548,7 +1548,7 @@ func (pid *PID) Shutdown(ctx context.Context) error {
 	// spawn rollback, endpoint subtree shutdown, and their own terminal
 	// self-stop must all be able to stop them while the system keeps running.
 	if actoryStem := pid.ActorSystem(); actoryStem != nil {
-		if !actoryStem.isStopping() && isSystemName(pid.Name()) && pid.reliableCompanion == nil {
+		if !actoryStem.isStopping() && isSystemName(pid.Name()) && pid.reliableCompanion == nil && !isRelocationWorkerName(pid.Name()) {
 			pid.logger.Warnf("attempt to shutdown system actor=%s", pid.Name())
 			return gerrors.ErrShutdownForbidden
 		}
